@@ -282,7 +282,8 @@ func runC20(c *vk.Ctx) {
 		ch := chain.New(chain.Options{Denoms: []string{"xxx"}, NumAccounts: 6, NumValidators: 2, Epochs: map[string]time.Duration{"day": 5 * time.Hour, "week": 6 * time.Hour}})
 		defer ch.Close()
 		ch.NextBlock(5 * time.Second)
-		w := &c20World{c: c, ch: ch, r: r, users: ch.Accs[:4], lp: ch.Accs[4], pos: map[uint64]*c20Pos{}, locks: map[uint64]*c20Lock{}, denoms: map[string]*c20Denom{}}
+		// users[0..3] act; users[4] (the LP) only owns the first full-range position
+		w := &c20World{c: c, ch: ch, r: r, users: ch.Accs[:5], lp: ch.Accs[4], pos: map[uint64]*c20Pos{}, locks: map[uint64]*c20Lock{}, denoms: map[string]*c20Denom{}}
 		sk := ch.App.SuperfluidKeeper
 		bm := balancer.NewMsgCreateBalancerPool(w.lp.Addr, balancer.NewPoolParams(osmomath.MustNewDecFromStr("0.003"), osmomath.ZeroDec(), nil),
 			[]balancer.PoolAsset{{Weight: sdkmath.NewInt(1), Token: coin("uosmo", 1_000_000_000_000)}, {Weight: sdkmath.NewInt(1), Token: coin("xxx", 2_000_000_000_000)}}, "")
@@ -301,7 +302,22 @@ func runC20(c *vk.Ctx) {
 		w.clID = ch.App.PoolManagerKeeper.GetNextPoolId(ch.Ctx) - 1
 		ch.Exec(&cltypes.MsgCreatePosition{PoolId: w.clID, Sender: w.lp.Addr.String(), LowerTick: cltypes.MinInitializedTick, UpperTick: cltypes.MaxTick, TokensProvided: sdk.NewCoins(coin("uosmo", 1_000_000_000_000), coin("xxx", 2_000_000_000_000)), TokenMinAmount0: sdkmath.ZeroInt(), TokenMinAmount1: sdkmath.ZeroInt()})
 		sk.AddNewSuperfluidAsset(ch.Ctx, sftypes.SuperfluidAsset{Denom: cltypes.GetConcentratedLockupDenomFromPoolId(w.clID), AssetType: sftypes.SuperfluidAssetTypeConcentratedShare})
-		for _, u := range w.users {
+		if ps, _ := ch.App.ConcentratedLiquidityKeeper.GetUserPositions(ch.Ctx, w.lp.Addr, w.clID); len(ps) == 1 {
+			w.pos[ps[0].PositionId] = &c20Pos{id: ps[0].PositionId, owner: 4}
+		}
+		// enough positions for ids that are decimal prefixes of one another (1 / 10..19, 2 / 20..29) to exist
+		for k := 0; k < 10+r.Intn(14); k++ {
+			u := k % 4
+			if res := ch.Exec(&cltypes.MsgCreatePosition{PoolId: w.clID, Sender: w.users[u].Addr.String(), LowerTick: -100 * int64(1+r.Intn(40)), UpperTick: 100 * int64(1+r.Intn(40)), TokensProvided: sdk.NewCoins(coin("uosmo", 1000+r.I64n(1e8)), coin("xxx", 1000+r.I64n(1e8))), TokenMinAmount0: sdkmath.ZeroInt(), TokenMinAmount1: sdkmath.ZeroInt()}); res.OK() {
+				ps, _ := ch.App.ConcentratedLiquidityKeeper.GetUserPositions(ch.Ctx, w.users[u].Addr, w.clID)
+				for _, p := range ps {
+					if w.pos[p.PositionId] == nil {
+						w.pos[p.PositionId] = &c20Pos{id: p.PositionId, owner: u}
+					}
+				}
+			}
+		}
+		for _, u := range w.users[:4] {
 			ch.Exec(&gammtypes.MsgJoinPool{Sender: u.Addr.String(), PoolId: w.balID, ShareOutAmount: gammtypes.InitPoolSharesSupply.QuoRaw(5), TokenInMaxs: sdk.NewCoins(coin("uosmo", 1e18), coin("xxx", 1e18))})
 		}
 		// a refresh epoch so that the superfluid multipliers exist
@@ -310,7 +326,7 @@ func runC20(c *vk.Ctx) {
 		val := func() string { return ch.Vals[r.Intn(len(ch.Vals))].OpAddr.String() }
 
 		for op := 0; op < opsPer && !w.stop; op++ {
-			u := r.Intn(len(w.users))
+			u := r.Intn(4)
 			ua := w.users[u]
 			switch k := r.Intn(30); {
 			case k < 3: // new position
@@ -374,11 +390,18 @@ func runC20(c *vk.Ctx) {
 				if id := lockIDFrom(res); res.OK() && id != 0 && w.locks[id] == nil {
 					w.locks[id] = &c20Lock{id: id, owner: u, denom: denom, state: "plain", receiver: -1}
 				}
-			case k == 8: // evolve a lock
+			case k == 8 || k == 12 && r.Bool(): // evolve a lock
+				mine := []*c20Lock{}
 				for _, l := range w.sortedLocks() {
-					if l.owner != u {
-						continue
+					if l.owner == u {
+						mine = append(mine, l)
 					}
+				}
+				if len(mine) == 0 {
+					continue
+				}
+				for _, l := range []*c20Lock{mine[r.Intn(len(mine))]} {
+					c.Count("evolve/"+l.state, 1)
 					switch l.state {
 					case "plain":
 						switch r.Intn(3) {
